@@ -636,6 +636,11 @@ class Cov(SingleAggregation):
     chunk = staticmethod(_cov_chunk)
     std = False
 
+    def _simplify_up(self, parent, dependents):
+        # Every column contributes a row per group to each output column, so
+        # selected output columns do not correspond to a subset of the input
+        return
+
     @classmethod
     def combine(cls, g, levels):
         return _concat(g)
